@@ -58,7 +58,7 @@ func main() {
 		fmt.Println("replay passes")
 		return
 	}
-	nprog, nops := 240, 300
+	nprog, nops := 480, 300
 	caps := dbh.PickCaps{Pick: 600, Finish: 600, Overlaps: 400, MemLevel: 200, Wf: 240}
 	shards, kPerRun := 16, 4
 	if a.Thorough() {
